@@ -21,6 +21,7 @@ func init() {
 }
 
 func ruleCSVValid(c *Ctx) {
+	csvHeaderCallback(c)
 	pairs := map[string]string{"csvInputConfig": "validateCSVInputConfig", "csvOutputConfig": "validateCSVOutputConfig"}
 	nStores := 0
 	for _, fn := range c.srcFuncs("interp") {
